@@ -288,7 +288,7 @@ Section Mirror.
         destruct (template_request_form 3 (t_id t) template_attrs_data ltac:(lia)) as (seg & Erq & Hseg). rewrite Erq.
         destruct (target_call_attrs cap st0 t ([32; 108] ++ seg) Hcap (resolve_template p (t_id t) t seg Hseg Hfind)
                                     Hdef Hsize Hcnt Hh) as (d & Ecall & Eparse).
-        rewrite Ecall. cbn [p_valid negb p_data]. rewrite Eparse.
+        rewrite Ecall. cbn [p_valid negb p_data p_error_raises orb]. rewrite Eparse.
         eexists. split; [reflexivity|]. unfold set_structs. cbn [u_udts u_data_types u_programs u_tasks].
         split; [reflexivity|]. split; [reflexivity|]. split; [reflexivity|]. split; [reflexivity|].
         destruct Hinv as [G S N T C Rr]. constructor; unfold keys in *; cbn [u_udts u_structs u_data_types]; try assumption.
